@@ -40,7 +40,7 @@ class Fn:
     def __init__(self, file, name, impl=None, mod=None, ret="r", requires=None, ensures=None, loops=None,
                  hints=None, closures=None, pre=None, props=(), keys=False, sig_sub=None, body_sub=None,
                  expand=None, attrs=None, canary=True, nloops=None, decreases=None, rename=None, dyn=True,
-                 no_unwind=False, fuel=None, post=None):
+                 no_unwind=False, fuel=None, post=None, claims=None, impl_sub=None):
         self.file, self.name, self.impl, self.mod = file, name, impl, mod
         self.ret = ret
         self.requires = _clauses(requires)
@@ -63,6 +63,9 @@ class Fn:
         self.no_unwind = no_unwind
         self.fuel = fuel
         self.post = post
+        # claims: (regex, nth, text, where, props, cid) — asserted PROPERTY obligations inside the body (a failure is a violation, unlike a hint)
+        self.claims = claims or []
+        self.impl_sub = impl_sub or []
         self.stub = False
 
     def qname(self):
